@@ -84,7 +84,8 @@ class Concretiser:
 
 
 def add_ids(xml, mode, rng):
-    """Author ids: none | all | alternate | duplicates."""
+    """Author ids: none | all | alternate | duplicates | empty (every second element carries id='': well-formed XML, but not an id -
+    such an element is owed a fresh id like one that has none)."""
     if mode == "none":
         return xml
     n = [0]
@@ -96,6 +97,8 @@ def add_ids(xml, mode, rng):
             return m.group(0)
         if mode == "alternate" and n[0] % 2 == 0:
             return m.group(0)
+        if mode == "empty":
+            return (f"<{tag} id=''" if n[0] % 2 else f"<{tag} id='au{n[0]}'") + m.group(2)
         i = n[0] if mode != "duplicates" else (n[0] % 3)
         return f"<{tag} id='au{i}'" + m.group(2)
     return re.sub(r"<(m[a-z]+|none)((?=[\s/>]))", rep, xml)
@@ -157,11 +160,11 @@ def build_cases(tier, wd):
         rng.shuffle(depth2)
         depth2 = depth2[:4500]
     cases = []
-    idmodes = ["none", "all", "alternate", "duplicates"]
+    idmodes = ["none", "all", "alternate", "duplicates", "empty"]
     for gi, t in enumerate(depth1 + depth2 + deep):
-        variants = [(False, idmodes[gi % 4])]
+        variants = [(False, idmodes[gi % 5])]
         if tier == "thorough" or gi % 3 == 0:
-            variants.append((True, idmodes[(gi + 1) % 4]))
+            variants.append((True, idmodes[(gi + 1) % 5]))
         for spicy, idmode in variants:
             body = Concretiser(random.Random(C.seed() * 7919 + gi * 2 + spicy), spicy).tree(t)
             xml = add_ids(f"<math>{body}</math>", idmode, rng)
@@ -252,7 +255,7 @@ def build_cases(tier, wd):
             for tag in ("mi", "mtext"):
                 attrs = ["", " mathvariant='normal'", " mathcolor='red'"][(hi + ti) % 3]
                 body = h.replace("{T}", f"<{tag}{attrs}>{tok}</{tag}>")
-                for idmode in (("all", "alternate", "duplicates", "none") if tier == "thorough" else ("all", idmodes[(hi + ti) % 4])):
+                for idmode in (("all", "alternate", "duplicates", "none", "empty") if tier == "thorough" else ("all", idmodes[(hi + ti) % 5])):
                     cases.append({"mathml": add_ids(f"<math>{body}</math>", idmode, rng), "origin": "split-token", "idmode": idmode, "spicy": True, "locale": None})
     corpus = mml.corpus()
     if tier == "quick":
@@ -335,7 +338,7 @@ def events_for(cases, results):
         tout = mml.parse(r["v"], expand=False)
         if tin is None:
             stats["input_unparsed"] += 1
-        inp_ids = mml.ids(tin) if tin else []
+        inp_ids = [i_ for i_ in mml.ids(tin) if i_ != ""] if tin else []      # (id='' is not an id)
         e = {"hasInp": 1 if tin else 0,
              "inp": mml.tree_for_tlc(tin) if tin else mml.tree_for_tlc({"tag": "none", "kids": [], "cp": [], "a": {}}),
              "parses": 1 if tout else 0,
